@@ -12,10 +12,10 @@ extern VfCounters g_cnt;
 
 struct Tracked {
   int32_t v;
-  explicit Tracked(int32_t x) : v(x) { ++g_cnt.live; ++g_cnt.ctor; }
-  Tracked(const Tracked& o) : v(o.v) { ++g_cnt.live; ++g_cnt.ctor; }
+  explicit Tracked(int32_t x) noexcept : v(x) { ++g_cnt.live; ++g_cnt.ctor; }
+  Tracked(const Tracked& o) noexcept : v(o.v) { ++g_cnt.live; ++g_cnt.ctor; }
   Tracked(Tracked&& o) noexcept : v(o.v) { o.v = -7; ++g_cnt.live; ++g_cnt.ctor; }
-  Tracked& operator=(const Tracked& o) { v = o.v; return *this; }
+  Tracked& operator=(const Tracked& o) noexcept { v = o.v; return *this; }
   Tracked& operator=(Tracked&& o) noexcept { v = o.v; o.v = -7; return *this; }
   ~Tracked() {
     vf_check(g_cnt.live > 0, "destructor runs on an object that is not alive (double destroy)");
